@@ -26,7 +26,7 @@ def plan(tier, seed):
         mode = modes[i % len(modes)]
         specs.append(dict(name="ref-%d" % i, mode=mode, role="ref", input=i, seed=seed))
         specs.append(dict(name="cfgA-%d" % i, mode=mode, role="A", input=i, seed=seed, nconf=5 if q else 12))
-        specs.append(dict(name="cfgB-%d" % i, mode=mode, role="B", input=i, seed=seed, nconf=4 if q else 12))
+        specs.append(dict(name="cfgB-%d" % i, mode=mode, role="B", input=i, seed=seed, nconf=4 if q else 12, big=(not q and i % 4 == 0)))
     for p in range(2 if q else 6):
         specs.append(dict(name="entry-%d" % p, mode="interp", role="entry", part=p, seed=seed, n=20 if q else 80))
     return specs
@@ -166,6 +166,9 @@ def run_shard(spec, res):
             kind = kinds[(j + (3 if spec["role"] == "B" else 0)) % len(kinds)]
             confs.append(dict(name="np%d-%s-%s" % (nproc, "mp" if mp else "sp", kind), nproc=nproc, mp=mp,
                               task_plan=delays_for(kind, K, 25, rng), preceding=int(rng.integers(1, 4)) if spec["role"] == "B" and j % 2 == 0 else 0))
+            if spec["role"] == "B" and j == 0 and (spec.get("big") or i == 0):
+                confs[-1]["preceding"] = 2
+                confs[-1]["big_before"] = True
     digests = {}
     for conf in confs:
         for p in range(conf.get("preceding", 0)):
@@ -175,6 +178,12 @@ def run_shard(spec, res):
                 # same N*W, different split: the shape most likely to collide in a badly keyed memo table
                 other = transposed_shape(case, seed)
                 res.count("preceding_calls_same_NW_other_split")
+            if p == 1 and conf.get("big_before"):
+                # a much larger problem first (N*W = 66): size-dependent settings or work-spaces must not stick
+                other = dict(front="single", data=dict(gen="regime", seed=5 + i, T=90, N=11, n_reg=2, seg=8, scale=1.0, flavor="plain"), W=6, K=2,
+                             beta=dict(form="float", value=5.0), lam=dict(form="float", value=0.5), m=2, limit=1, biased=True, eps=0.0,
+                             nproc=1, mp=False, rng_seed=1, init=dict(kind="blocks"))
+                res.count("preceding_calls_with_large_NW")
             e2e.run_case(other)
             res.count("preceding_calls")
         d, perms, run = run_config(case, conf, res)
@@ -243,6 +252,8 @@ def finalize(merged, tier):
         out["inconclusive"].append("fewer than 3 compared configurations drew points for a repopulation (global-generator dependence unobserved)")
     if merged["counters"].get("preceding_calls_same_NW_other_split", 0) < 3:
         out["inconclusive"].append("fewer than 3 configurations were preceded by a call with the same N*W but another (N,W) split")
+    if merged["counters"].get("preceding_calls_with_large_NW", 0) < 1:
+        out["inconclusive"].append("no compared configuration was preceded by a call with a large matrix size")
     if merged["counters"].get("entry_point_repeat_comparisons", 0) < (30 if tier == "quick" else 300):
         out["inconclusive"].append("entry-point history comparisons: %d" % merged["counters"].get("entry_point_repeat_comparisons", 0))
     if compared < (40 if tier == "quick" else 400):
